@@ -141,7 +141,53 @@ func c16Scenarios(cfg runCfg) []Scenario {
 			out = append(out, Scenario{Family: "crash", Seed: mix(cfg.seed, 16, 77, uint64(i)), N: lines[i%len(lines)], K: elems[1+i%3], S: names[i%len(names)], X: map[string]string{"twice": "1"}})
 		}
 	}
+	// faults: a system call of the save fails (disk full, permissions, rename across devices ...), and the process is
+	// then killed at every later call of the error path
+	for i := 0; i < cfg.n(16, 6); i++ {
+		if cfg.mine(i) {
+			out = append(out, Scenario{Family: "crash", Seed: mix(cfg.seed, 16, 99, uint64(i)), N: []int{0, 1, 3}[i%3], K: elems[(i/3)%4], S: names[i%len(names)], X: map[string]string{"fault": "1"}})
+		}
+	}
 	return out
+}
+
+type c16Point struct {
+	name string
+	j    int // ordinal among the main thread's calls of that name since process start
+	args string
+}
+
+// c16SaveTrace cuts the main thread's calls between the two markers out of a trace and lists the file-system-affecting
+// ones with their per-name ordinals (the coordinates strace's when= counts in).
+func c16SaveTrace(trace []scLine) (mainPid string, saveTrace []scLine, points []c16Point, sawEnd bool) {
+	mainPid = trace[0].pid
+	counts := map[string]int{}
+	inSave := false
+	for _, l := range trace {
+		if l.pid != mainPid || l.name == "+++" {
+			continue
+		}
+		counts[l.name]++
+		if strings.Contains(l.rest, c16MarkBegin) {
+			inSave = true
+			continue
+		}
+		if strings.Contains(l.rest, c16MarkEnd) {
+			inSave = false
+			sawEnd = true
+			continue
+		}
+		if !inSave {
+			continue
+		}
+		saveTrace = append(saveTrace, l)
+		switch l.name {
+		case "access", "faccessat", "faccessat2":
+			continue // reads only
+		}
+		points = append(points, c16Point{l.name, counts[l.name], clip(l.rest, 90)})
+	}
+	return
 }
 
 type scLine struct {
@@ -183,11 +229,18 @@ func (sc Scenario) c16Env() []string {
 }
 
 func runChild(sc Scenario, dir string, inject string) (trace []scLine, killed bool, err error) {
+	if inject == "" {
+		return runChildMulti(sc, dir, nil)
+	}
+	return runChildMulti(sc, dir, []string{inject})
+}
+
+func runChildMulti(sc Scenario, dir string, injects []string) (trace []scLine, killed bool, err error) {
 	self, _ := os.Executable()
 	os.MkdirAll(dir, 0o775)
 	log := filepath.Join(dir, "..", filepath.Base(dir)+".strace")
 	args := []string{"-f", "-o", log, "-e", "trace=" + c16Syscalls}
-	if inject != "" {
+	for _, inject := range injects {
 		args = append(args, "-e", "inject="+inject)
 	}
 	args = append(args, self, "-verif.child=c16")
@@ -228,41 +281,7 @@ func c16Run(t *testing.T, sc Scenario, res *Result) {
 		res.inconclusive(fmt.Sprintf("reference run failed: %v", err))
 		return
 	}
-	mainPid := trace[0].pid
-	type point struct {
-		name string
-		j    int // ordinal among the main thread's calls of that name since process start
-		args string
-	}
-	var points []point
-	counts := map[string]int{}
-	inSave := false
-	sawEnd := false
-	var saveTrace []scLine
-	for _, l := range trace {
-		if l.pid != mainPid || l.name == "+++" {
-			continue
-		}
-		counts[l.name]++
-		if strings.Contains(l.rest, c16MarkBegin) {
-			inSave = true
-			continue
-		}
-		if strings.Contains(l.rest, c16MarkEnd) {
-			inSave = false
-			sawEnd = true
-			continue
-		}
-		if !inSave {
-			continue
-		}
-		saveTrace = append(saveTrace, l)
-		switch l.name {
-		case "access", "faccessat", "faccessat2":
-			continue // reads only
-		}
-		points = append(points, point{l.name, counts[l.name], clip(l.rest, 90)})
-	}
+	mainPid, saveTrace, points, sawEnd := c16SaveTrace(trace)
 	if !sawEnd || len(points) == 0 {
 		res.inconclusive(fmt.Sprintf("markers not found in the reference trace (%d lines)", len(trace)))
 		return
@@ -290,55 +309,18 @@ func c16Run(t *testing.T, sc Scenario, res *Result) {
 	res.inc("scenarios_traced")
 	res.count("save_syscalls", int64(len(points)))
 
-	// trace oracle: the final name only ever appears as a rename target whose source was closed after its last write
 	san := sanitize(name)
-	finalRe := regexp.MustCompile(`"[^"]*/` + regexp.QuoteMeta(san) + `-[^"/]*\.fail"`)
-	openFds := map[string]string{} // fd -> path
-	closedTemp := map[string]bool{}
-	for _, l := range saveTrace {
-		switch l.name {
-		case "openat", "open", "creat":
-			if finalRe.MatchString(l.rest) && (strings.Contains(l.rest, "O_WRONLY") || strings.Contains(l.rest, "O_RDWR") || strings.Contains(l.rest, "O_CREAT") || l.name == "creat") {
-				res.violate(sc, "c16/trace-open-final", "a file matching the discovery pattern was opened for writing / created directly: "+clip(l.rest, 200), map[string]any{"trace": traceStr(saveTrace, 60)})
-			}
-			if i := strings.LastIndex(l.rest, "= "); i >= 0 {
-				if q := strings.Split(l.rest, `"`); len(q) >= 2 {
-					openFds[strings.TrimSpace(l.rest[i+2:])] = q[1]
-				}
-			}
-		case "close":
-			fd := strings.TrimSuffix(strings.SplitN(l.rest, ")", 2)[0], " ")
-			if p, ok := openFds[fd]; ok {
-				closedTemp[filepath.Base(p)] = true
-				delete(openFds, fd)
-			}
-		case "rename", "renameat", "renameat2":
-			q := strings.Split(l.rest, `"`)
-			if len(q) >= 4 {
-				src, dst := q[1], q[3]
-				if finalRe.MatchString(`"`+dst+`"`) || strings.HasSuffix(dst, ".fail") {
-					if !closedTemp[filepath.Base(src)] {
-						res.violate(sc, "c16/trace-rename-open", "temp file renamed to the final name before it was closed: "+clip(l.rest, 200), map[string]any{"trace": traceStr(saveTrace, 60)})
-					}
-					for fd, p := range openFds {
-						if filepath.Base(p) == filepath.Base(src) {
-							res.violate(sc, "c16/trace-rename-open", fmt.Sprintf("temp file %s still open (fd %s) when renamed", p, fd), map[string]any{"trace": traceStr(saveTrace, 60)})
-						}
-					}
-				}
-			}
-		case "link", "linkat", "symlink", "symlinkat":
-			if finalRe.MatchString(l.rest) {
-				res.violate(sc, "c16/trace-link", "final name created by link: "+clip(l.rest, 200), nil)
-			}
-		}
-	}
+	c16TraceOracle(sc, res, saveTrace, san, "")
 
 	if twice {
 		// two saves under one name: judged on the trace (no write access to a name that is picked up) and on the result
 		res.inc("twice_same_name_traced")
 		res.inc("crash_runs") // (one traced run)
 		res.nontrivial(fmt.Sprintf("twice/%s/%d/%d", name, sc.N, sc.K))
+		return
+	}
+	if sc.X["fault"] == "1" {
+		c16Fault(sc, res, base, points, refNorm, refWords)
 		return
 	}
 	// step 2: kill the child on entry to every one of those calls
@@ -448,6 +430,53 @@ func c16Run(t *testing.T, sc Scenario, res *Result) {
 	}
 }
 
+// c16TraceOracle: a name that is picked up only ever appears as the target of a rename whose source was closed after its
+// last write; it is never opened for writing, created or linked directly.
+func c16TraceOracle(sc Scenario, res *Result, saveTrace []scLine, san string, tag string) {
+	// trace oracle: the final name only ever appears as a rename target whose source was closed after its last write
+	finalRe := regexp.MustCompile(`"[^"]*/` + regexp.QuoteMeta(san) + `-[^"/]*\.fail"`)
+	openFds := map[string]string{} // fd -> path
+	closedTemp := map[string]bool{}
+	for _, l := range saveTrace {
+		switch l.name {
+		case "openat", "open", "creat":
+			if finalRe.MatchString(l.rest) && (strings.Contains(l.rest, "O_WRONLY") || strings.Contains(l.rest, "O_RDWR") || strings.Contains(l.rest, "O_CREAT") || l.name == "creat") {
+				res.violate(sc, "c16/trace-open-final"+tag, "a file matching the discovery pattern was opened for writing / created directly: "+clip(l.rest, 200), map[string]any{"trace": traceStr(saveTrace, 60)})
+			}
+			if i := strings.LastIndex(l.rest, "= "); i >= 0 {
+				if q := strings.Split(l.rest, `"`); len(q) >= 2 {
+					openFds[strings.TrimSpace(l.rest[i+2:])] = q[1]
+				}
+			}
+		case "close":
+			fd := strings.TrimSuffix(strings.SplitN(l.rest, ")", 2)[0], " ")
+			if p, ok := openFds[fd]; ok {
+				closedTemp[filepath.Base(p)] = true
+				delete(openFds, fd)
+			}
+		case "rename", "renameat", "renameat2":
+			q := strings.Split(l.rest, `"`)
+			if len(q) >= 4 {
+				src, dst := q[1], q[3]
+				if finalRe.MatchString(`"`+dst+`"`) || strings.HasSuffix(dst, ".fail") {
+					if !closedTemp[filepath.Base(src)] {
+						res.violate(sc, "c16/trace-rename-open"+tag, "temp file renamed to the final name before it was closed: "+clip(l.rest, 200), map[string]any{"trace": traceStr(saveTrace, 60)})
+					}
+					for fd, p := range openFds {
+						if filepath.Base(p) == filepath.Base(src) {
+							res.violate(sc, "c16/trace-rename-open"+tag, fmt.Sprintf("temp file %s still open (fd %s) when renamed", p, fd), map[string]any{"trace": traceStr(saveTrace, 60)})
+						}
+					}
+				}
+			}
+		case "link", "linkat", "symlink", "symlinkat":
+			if finalRe.MatchString(l.rest) {
+				res.violate(sc, "c16/trace-link"+tag, "final name created by link: "+clip(l.rest, 200), nil)
+			}
+		}
+	}
+}
+
 func traceStr(tr []scLine, n int) []string {
 	var out []string
 	for i, l := range tr {
@@ -458,4 +487,163 @@ func traceStr(tr []scLine, n int) []string {
 		out = append(out, l.name+"("+clip(l.rest, 110))
 	}
 	return out
+}
+
+func c16Errno(name string, variant int) string {
+	switch name {
+	case "mkdir", "mkdirat":
+		return []string{"EACCES", "ENOSPC", "EROFS"}[variant%3]
+	case "open", "openat", "creat":
+		return []string{"ENOSPC", "EMFILE", "EACCES"}[variant%3]
+	case "write", "pwrite64", "writev":
+		return []string{"ENOSPC", "EIO", "EDQUOT"}[variant%3]
+	case "close", "fsync", "fdatasync":
+		return []string{"EIO", "ENOSPC", "EIO"}[variant%3]
+	case "rename", "renameat", "renameat2":
+		return []string{"EXDEV", "EACCES", "ENOSPC"}[variant%3]
+	case "unlink", "unlinkat":
+		return []string{"EACCES", "EBUSY", "EIO"}[variant%3]
+	}
+	return "EIO"
+}
+
+// c16Fault: one system call of the save fails with an error; the faulted run is traced (same trace oracle), its final
+// directory is judged, and the process is killed at every later file-system call of the path the library then takes
+// (strace keeps one injection per system-call name, so the kill points are those of other names than the failed call).
+func c16Fault(sc Scenario, res *Result, base string, points []c16Point, refNorm string, refWords []uint64) {
+	name := sc.S
+	san := sanitize(name)
+	wd, _ := os.Getwd()
+	r := newRng(sc.Seed, 0xc16f)
+	judgeDir := func(dir, what string, detail map[string]any) {
+		os.Chdir(dir)
+		defer os.Chdir(wd)
+		final, temps, _ := listFailDir(name)
+		detail["final_files"], detail["temp_files"] = final, temps
+		res.inc(fmt.Sprintf("fault_dirstate:final=%d,temp=%d", len(final), len(temps)))
+		for _, f := range final {
+			b, _ := os.ReadFile(f)
+			if _, _, _, _, err := readFailFile(f); err != nil {
+				res.violate(sc, "c16/fault-partial-visible", fmt.Sprintf("%s: a file that a later run picks up does not parse: %v (%d bytes)", what, err, len(b)), detail)
+			} else if normFailFile(b) != refNorm {
+				res.violate(sc, "c16/fault-incomplete-visible", fmt.Sprintf("%s: a picked-up fail file differs from an uninterrupted save (%d vs %d bytes)", what, len(b), len(refNorm)), detail)
+			}
+		}
+		// a later run in that directory replays the complete file or finds nothing
+		lg := &Log{}
+		setFlags(map[string]string{"rapid.nofailfile": "true", "rapid.shrinktime": "0s", "rapid.checks": "5", "rapid.seed": fmt.Sprint(sc.Seed%100000 + 1)})
+		tb := newTB(name)
+		prop := c16Prop(sc.N, sc.K)
+		runCheck(tb, lg.prop(func(x *X) { prop(x.t) }))
+		rp := parseReport(tb)
+		for _, l := range tb.logs() {
+			if strings.Contains(l, "ignoring fail file") || strings.Contains(l, "no longer") {
+				detail["later_run"] = tb.brief()
+				res.violate(sc, "c16/fault-later-run-trips", what+": a later run tripped over what was left behind: "+clip(l, 200), detail)
+			}
+		}
+		if len(final) > 0 {
+			if rp.N != 0 || len(lg.Invs) == 0 || lg.Invs[0].Kind != "buffer" || !wordsEqual(lg.Invs[0].Cand, refWords) {
+				detail["later_run"] = tb.brief()
+				res.violate(sc, "c16/fault-later-run-replay", what+": a complete fail file was left but the later run did not replay the reference test case first", detail)
+			}
+			res.inc("fault_later_run_replayed")
+		} else if len(lg.Invs) > 0 && lg.Invs[0].Kind == "buffer" {
+			detail["later_run"] = tb.brief()
+			res.violate(sc, "c16/fault-later-run-phantom", what+": no complete fail file exists but the later run replayed something", detail)
+		}
+	}
+	// fault points: quick = first and last call of every name; thorough = every call
+	var fps []int
+	if *fTier == "thorough" {
+		for i := range points {
+			fps = append(fps, i)
+		}
+	} else {
+		first, last := map[string]int{}, map[string]int{}
+		for i, p := range points {
+			if _, ok := first[p.name]; !ok {
+				first[p.name] = i
+			}
+			last[p.name] = i
+		}
+		seen := map[int]bool{}
+		for i := range points {
+			if (first[points[i].name] == i || last[points[i].name] == i) && !seen[i] {
+				seen[i] = true
+				fps = append(fps, i)
+			}
+		}
+	}
+	for _, fi := range fps {
+		fp := points[fi]
+		errno := c16Errno(fp.name, int(r.next()%3))
+		inj := fmt.Sprintf("%s:error=%s:when=%d", fp.name, errno, fp.j)
+		dir := filepath.Join(base, fmt.Sprintf("f%03d", fi))
+		tr, killed, err := runChild(sc, dir, inj)
+		res.inc("fault_runs")
+		if err != nil || killed || len(tr) == 0 {
+			res.inconclusive(fmt.Sprintf("faulted run did not complete: %v", err))
+			os.RemoveAll(dir)
+			continue
+		}
+		_, ftrace, fpoints, sawEnd := c16SaveTrace(tr)
+		if !sawEnd {
+			res.inconclusive("markers not found in the faulted trace")
+			os.RemoveAll(dir)
+			continue
+		}
+		hit := false
+		for _, l := range ftrace {
+			if l.name == fp.name && strings.Contains(l.rest, "(INJECTED)") {
+				hit = true
+			}
+		}
+		if !hit {
+			res.inc("fault_not_injected")
+			os.RemoveAll(dir)
+			continue
+		}
+		res.inc("fault_injected:" + fp.name + "=" + errno)
+		res.nontrivial(fmt.Sprintf("fault/%x/%s#%d=%s", sc.Seed, fp.name, fp.j, errno))
+		what := fmt.Sprintf("after %s#%d failed with %s", fp.name, fp.j, errno)
+		c16TraceOracle(sc, res, ftrace, san, "/fault")
+		judgeDir(dir, what, map[string]any{"fault": inj, "trace": traceStr(ftrace, 60)})
+		os.RemoveAll(dir)
+		// kill points: the calls after the failed one, of other names
+		after := false
+		for ki, kp := range fpoints {
+			if !after {
+				if kp.name == fp.name && kp.j == fp.j {
+					after = true
+				}
+				continue
+			}
+			if kp.name == fp.name {
+				res.inc("fault_kill_points_same_name(skipped)")
+				continue
+			}
+			kdir := filepath.Join(base, fmt.Sprintf("f%03dk%03d", fi, ki))
+			cmdInj := inj
+			_, kkilled, kerr := runChildMulti(sc, kdir, []string{cmdInj, fmt.Sprintf("%s:signal=KILL:when=%d", kp.name, kp.j)})
+			res.inc("fault_crash_runs")
+			if kerr != nil {
+				res.inconclusive("fault+crash run failed to start: " + kerr.Error())
+				os.RemoveAll(kdir)
+				continue
+			}
+			if !kkilled {
+				res.inc("fault_crash_point_not_reached")
+				os.RemoveAll(kdir)
+				continue
+			}
+			res.inc("fault_killed_at:" + kp.name)
+			res.nontrivial(fmt.Sprintf("fault/%x/%s#%d=%s/kill:%s#%d", sc.Seed, fp.name, fp.j, errno, kp.name, kp.j))
+			judgeDir(kdir, fmt.Sprintf("%s and a kill at %s#%d", what, kp.name, kp.j), map[string]any{"fault": inj, "crash_point": fmt.Sprintf("%s #%d %s", kp.name, kp.j, kp.args), "faulted_trace": traceStr(ftrace, 60)})
+			os.RemoveAll(kdir)
+		}
+	}
+	if res.wantSample() {
+		res.sample(map[string]any{"family": "fault", "name": name, "output_lines": sc.N, "slice_elems": sc.K, "fault_points": len(fps), "save_syscalls": len(points)})
+	}
 }
